@@ -2,10 +2,10 @@ package main
 
 import (
 	"fmt"
-	"os"
-	"regexp"
 	"go/token"
 	"go/types"
+	"os"
+	"regexp"
 	"slices"
 	"strings"
 
@@ -237,6 +237,11 @@ func (x *Exec) callSSA(caller *frame, site ssa.Instruction, fn *ssa.Function, ar
 		abortf("uninstantiated generic %s", name)
 	}
 	x.noteFunc(fn)
+	if fn.Pkg != nil && fn.Pkg.Pkg.Path() == "context" {
+		// the context package's own synchronisation is trusted: its operations are atomic steps
+		x.atomicDepth++
+		defer func() { x.atomicDepth-- }()
+	}
 	if len(th.stack) > 400 {
 		abortf("call depth > 400 (unwinding bound)")
 	}
